@@ -1079,6 +1079,10 @@ def gen_bindings(rng, case_name, eins, decl, storage, infos, configs, fmt, loopf
             rng.shuffle(order)
         for comp in order:
             ent.append({"component": comp, "bindings": per_comp[comp]})
+        if rng.random() < 0.3 and len(ent) > 1:
+            # the order of the entries of a binding list carries no meaning
+            ent.insert(rng.randint(1, len(ent) - 1), ent.pop(0))
+            tags.append("config_entry_not_first")
         bindings[e.out] = ent
     if len(eins) > 1:
         if any(len(v) > 1 for v in mem_used.values()):
